@@ -66,7 +66,8 @@ def case(draw):
                 ch["nums"] = [x + delta for x in ch["nums"]]
         chains.append(ch)
     desc = dict(chains=chains)
-    desc["waters"] = [dict(draw(strat.water()), chain=draw(st.sampled_from(["W", ids[0], " "])), seq=700 + k)
+    desc["waters"] = [dict(draw(strat.water()), chain=draw(st.sampled_from(["W", ids[0], " "])), seq=700 + k,
+                           resn=draw(st.sampled_from(["HOH", "HOH", "WAT"])), rec=draw(st.sampled_from(["HETATM", "HETATM", "ATOM"])))
                       for k in range(draw(st.integers(0, 2)))]  # fmt: skip
     edits = [[draw(st.integers(0, 400)), draw(st.sampled_from(EDITS))] for _ in range(draw(st.integers(0, 6)))]
     alts = [[draw(st.integers(0, 400)), draw(st.sampled_from(["adjacent", "grouped"]))] for _ in range(draw(st.integers(0, 2)))]
@@ -76,6 +77,8 @@ def case(draw):
         truncate=draw(st.sampled_from([None, None, 54, 60, 66, 78])),
         trailing=draw(st.sampled_from([0, 0, 3])),
         models=draw(st.sampled_from([0, 0, 1, 2, 3])),
+        model_serials=draw(st.sampled_from(["from1", "from1", "from0", "from3", "all-same", "descending"])),
+        serial0=draw(st.sampled_from([1, 1, 9995, 99990])),
         lead_end=draw(st.sampled_from([False, False, False, True])),
         double_end=draw(st.booleans()),
         mode=draw(st.sampled_from(["clean", "clean", "clean", "full", "full-dropwater", "clean-dropwater"])),
@@ -96,7 +99,7 @@ def render(case):
         if recs:
             alt_at[pos % len(recs)] = style
     grouped_pending = []
-    serial = 1
+    serial = case.get("serial0", 1)
     for i, r in enumerate(recs):
         def fmt(alt, dx=0.0, occ=1.0):
             return build.fmt_atom(serial, r["name"], r["resn"], r["chain"], r["seq"], r["icode"],
@@ -164,11 +167,14 @@ def render(case):
     if case["lead_end"]:
         out.append("END")
     if case["models"]:
-        out.append("MODEL        1")
+        nm = case["models"]
+        serials = {"from1": list(range(1, nm + 1)), "from0": list(range(0, nm)), "from3": list(range(3, nm + 3)),
+                   "all-same": [1] * nm, "descending": list(range(nm, 0, -1))}[case.get("model_serials", "from1")]
+        out.append("MODEL     %4d" % serials[0])
         out += body
         out.append("ENDMDL")
         for m in range(1, case["models"]):
-            out.append("MODEL     %4d" % (m + 1))
+            out.append("MODEL     %4d" % serials[m])
             for r in recs:
                 out.append(build.fmt_atom(1, r["name"], r["resn"], r["chain"], r["seq"], r["icode"],
                                           r["xyz"] + 0.5 * m, rec=r["rec"]))  # fmt: skip
